@@ -170,7 +170,11 @@ def enc_value_content(val):
 
 
 def enc_value(val, form=None):
-    """Full TLV for a ``(kind, value)`` tuple."""
+    """Full TLV for a ``(kind, value)`` tuple.  ("rawtlv", octets) is emitted verbatim: a
+    value whose CONTENT does not suit its type (an IpAddress of 17 octets, ...), used only
+    where a check deliberately plays a sloppy agent."""
+    if val[0] == "rawtlv":
+        return bytes(val[1])
     return tlv(TAGS[val[0]], enc_value_content(val), form)
 
 
